@@ -17,18 +17,19 @@ import itertools
 import numpy as np
 from hypothesis import strategies as st
 
-from vlib.runner import Clause
+from vlib.runner import Clause, Ctx
 
 from menpo.base import LazyList
 
 PROPERTY = "C19"
 RULE = (
-    "a case is a program: one constructor followed by up to 25 (clause long_programs: 50) ops drawn from "
-    "new/map/map_list/slice/index/repeat/add/add_list/copy (derivations), get/iter/len (reads), and the "
-    "documented rejections; pool and element arguments are integers reduced modulo the pool/list size at "
-    "interpretation time; non-trivial = the program contains an explicit element read or iteration of a "
-    "list derived through >= 2 operations that is preceded by >= 3 successful derivation ops of >= 2 "
-    "different kinds; distinct = distinct canonical-JSON digest of the program"
+    "a case is a program {init: constructor, verify: bool, ops: [...]} of up to 25 (clause long_programs: 50) ops drawn "
+    "from new/map/map_list/slice/index/repeat/add/add_list/copy (derivations), get/iter/len (reads) and the documented "
+    "rejections; two shapes: free sequence, or >= 3 derivations + a read + free sequence; pool and element arguments "
+    "are integers reduced modulo the pool/list size at interpretation time (src 0 = latest list, -1 = first list); "
+    "verify=true additionally reads every new list at birth and re-reads the operands after each op; non-trivial = "
+    "the program contains an explicit element read or iteration of a list derived through >= 2 operations that is "
+    "preceded by >= 3 successful derivation ops of >= 2 different kinds; distinct = distinct canonical-JSON digest"
 )
 ASSUMPTIONS = [
     "list lengths are capped at 60: a repeat/+ that would exceed the cap is skipped (counted as event skip=too_long)",
@@ -261,6 +262,8 @@ class _Run(object):
                 "%s: element %d of %s reads %r, model says %r%s"
                 % (self.where(), j, desc, got, want, " (it read correctly earlier)" if before_ok else ""),
             )
+        if got != want and before_ok:
+            return True  # a changed element evaluates different things: one root cause, reported above
         if evs != wlog and (id(a), "e") not in self.blamed:
             self.blamed.add((id(a), "e"))
             if before_ok:
@@ -589,9 +592,8 @@ class _Run(object):
             self.ctx.event("max_depth=%s" % min(6, max(e.depth for e in self.pool)))
 
 
-def c_program(case, ctx):
-    run = _Run(ctx, bool(case.get("verify")))
-    ctx.event("verify=%s" % run.verify)
+def _execute(case, ctx, verify):
+    run = _Run(ctx, verify)
     try:
         run.step = 0
         run.kind = "new"
@@ -603,7 +605,34 @@ def c_program(case, ctx):
         run.finish()
     except _Abort:
         ctx.event("aborted")
+
+
+def c_program(case, ctx):
+    verify = bool(case.get("verify"))
+    ctx.event("verify=%s" % verify)
     ctx.event("n_ops=%s" % ("0-2" if len(case["ops"]) < 3 else "3-9" if len(case["ops"]) < 10 else "10+"))
+    sub = Ctx(ctx.tier)
+    try:
+        _execute(case, sub, verify)
+    finally:
+        ctx.events.extend(sub.events)
+        ctx.nt = ctx.nt or sub.nt
+        fails = sub.fails
+        if fails and not verify:
+            # Without the extra reads a deviating element that was never read before cannot be attributed (wrong
+            # from birth, or changed by a later operation?).  Programs are data: run the same program again on
+            # fresh objects with every new list read at birth and every operand re-read after each operation,
+            # and report that run's (precisely attributed) failures instead, if it has any.
+            again = Ctx(ctx.tier)
+            try:
+                _execute(case, again, True)
+            except Exception as exc:  # attribution aid only: the first run's failures stand and are reported
+                ctx.event("verified_rerun_raised=%s" % type(exc).__name__)
+            else:
+                if again.fails:
+                    fails = again.fails
+                    ctx.event("attributed_by_verified_rerun")
+        ctx.fails.extend(fails)
 
 
 # ---------------------------------------------------------------------------------- generator
@@ -632,59 +661,69 @@ def _ctor_fields():
 
 def s_ops():
     fids = st.lists(_FID, min_size=1, max_size=4)
-    new = _op("new", **_ctor_fields())
-    map1 = _op("map", src=_SRC, f=_FID)
-    mapl = _op("map_list", src=_SRC, fs=fids, **{"as": st.sampled_from(["list", "list", "tuple"])})
-    mapbad = _op("map_bad", src=_SRC, fs=fids, delta=st.sampled_from([-3, -2, -1, 1, 2, 3]))
-    mapamb = _op("map_ambiguous", src=_SRC, f=_FID)
-    get = _op(
-        "get",
-        src=_RSRC,
-        i=_ELT,
-        mode=st.sampled_from(["pos", "pos", "pos", "neg", "neg", "hi", "lo"]),
-        **{"as": st.sampled_from(["int", "int", "np", "index"])}
-    )
-    sl = _op("slice", src=_SRC, start=_BOUND, stop=_BOUND, step=_STEP)
-    index = _op(
-        "index",
-        src=_SRC,
-        idx=st.lists(_ELT, min_size=0, max_size=8),
-        oob=st.sampled_from([False] * 7 + [True]),
-        **{"as": st.sampled_from(["list", "tuple", "ndarray", "ndarray", "ndarray_i16", "iter"])}
-    )
-    repeat = _op("repeat", src=_SRC, n=st.integers(0, 3))
-    add = _op("add", src=_SRC, other=_SRC)
-    addl = _op("add_list", src=_SRC, n=st.integers(0, 4))
-    addbad = _op("add_bad", src=_SRC, what=st.sampled_from(["int", "none", "float", "object"]))
-    copy = _op("copy", src=_SRC)
-    ln = _op("len", src=_SRC)
-    it = _op("iter", src=_RSRC, k=st.one_of(st.none(), _ELT))
-    table = {
-        "new": new, "map": map1, "map_list": mapl, "slice": sl, "index": index, "repeat": repeat, "add": add,
-        "add_list": addl, "copy": copy, "get": get, "iter": it, "len": ln, "map_bad": mapbad,
-        "map_ambiguous": mapamb, "add_bad": addbad,
+    make = {
+        "new": lambda: _op("new", **_ctor_fields()),
+        "map": lambda: _op("map", src=_SRC, f=_FID),
+        "map_list": lambda: _op("map_list", src=_SRC, fs=fids, **{"as": st.sampled_from(["list", "list", "tuple"])}),
+        "map_bad": lambda: _op("map_bad", src=_SRC, fs=fids, delta=st.sampled_from([-3, -2, -1, 1, 2, 3])),
+        "map_ambiguous": lambda: _op("map_ambiguous", src=_SRC, f=_FID),
+        "get": lambda: _op(
+            "get",
+            src=_RSRC,
+            i=_ELT,
+            mode=st.sampled_from(["pos", "pos", "pos", "neg", "neg", "hi", "lo"]),
+            **{"as": st.sampled_from(["int", "int", "np", "index"])}
+        ),
+        "slice": lambda: _op("slice", src=_SRC, start=_BOUND, stop=_BOUND, step=_STEP),
+        "index": lambda: _op(
+            "index",
+            src=_SRC,
+            idx=st.lists(_ELT, min_size=0, max_size=8),
+            oob=st.sampled_from([False] * 7 + [True]),
+            **{"as": st.sampled_from(["list", "tuple", "ndarray", "ndarray", "ndarray_i16", "iter"])}
+        ),
+        "repeat": lambda: _op("repeat", src=_SRC, n=st.integers(0, 3)),
+        "add": lambda: _op("add", src=_SRC, other=_SRC),
+        "add_list": lambda: _op("add_list", src=_SRC, n=st.integers(0, 4)),
+        "add_bad": lambda: _op("add_bad", src=_SRC, what=st.sampled_from(["int", "none", "float", "object"])),
+        "copy": lambda: _op("copy", src=_SRC),
+        "len": lambda: _op("len", src=_SRC),
+        "iter": lambda: _op("iter", src=_RSRC, k=st.one_of(st.none(), _ELT)),
     }
-    weights = {
-        "new": 1, "map": 6, "map_list": 5, "slice": 8, "index": 7, "repeat": 4, "add": 5, "add_list": 3,
-        "copy": 3, "get": 9, "iter": 5, "len": 2, "map_bad": 1, "map_ambiguous": 1, "add_bad": 1,
-    }
-    names = []
-    for k in sorted(weights):
-        names.extend([k] * weights[k])
-    # sampled_from keeps the multiplicities (one_of would merge identical branches)
-    return st.sampled_from(names).flatmap(lambda k: table[k])
+    # weights = number of (distinct but equal) branches; one_of shrinks towards the first branches
+    weights = [
+        ("get", 9), ("iter", 5), ("len", 2), ("copy", 3), ("map", 6), ("slice", 8), ("index", 7), ("repeat", 4),
+        ("add", 5), ("add_list", 3), ("map_list", 5), ("new", 1), ("map_bad", 1), ("map_ambiguous", 1), ("add_bad", 1),
+    ]
+
+    def mix(only=None):
+        branches = []
+        for name, w in weights:
+            if only is None or name in only:
+                branches.extend(make[name]() for _ in range(w))
+        return st.one_of(*branches)
+
+    return mix(), mix(DERIVE), mix(("get", "iter"))
+
+
+def _chunks(op, max_ops):
+    # several independently shrinkable chunks (a single st.lists averages 5 elements whatever its max_size)
+    n_chunks = max(1, max_ops // 6)
+    sizes = [max_ops // n_chunks + (1 if k < max_ops % n_chunks else 0) for k in range(n_chunks)]
+    return st.tuples(*[st.lists(op, min_size=0, max_size=m) for m in sizes]).map(
+        lambda chunks: [o for c in chunks for o in c]
+    )
 
 
 def s_program(max_ops):
-    op = s_ops()
+    op, derive, read = s_ops()
     init = st.fixed_dictionaries(_ctor_fields())
-    ops = st.one_of(
-        st.lists(op, min_size=0, max_size=max_ops),
-        st.lists(op, min_size=6, max_size=max_ops),
-        st.lists(op, min_size=10, max_size=max_ops),
-        st.lists(op, min_size=max_ops // 2 + 2, max_size=max_ops),
+    free = _chunks(op, max_ops)
+    # second shape: a run of derivations, a read, then anything (shrinks to the free shape)
+    staged = st.tuples(st.lists(derive, min_size=3, max_size=8), read, _chunks(op, max_ops - 9)).map(
+        lambda t: t[0] + [t[1]] + t[2]
     )
-    return st.fixed_dictionaries({"init": init, "verify": st.booleans(), "ops": ops})
+    return st.fixed_dictionaries({"init": init, "verify": st.booleans(), "ops": st.one_of(free, staged)})
 
 
 # ---------------------------------------------------------------------------------- exhaustive small scope
